@@ -185,6 +185,35 @@ func init() {
 				c.Run.Sample(map[string]any{"rule": c16RuleText(mods), "expected_option": c16Expected(mods)})
 			}
 		}
+		// the same subsets with neutral modifiers written before and after them (rules of up to twelve options)
+		pads := [][]string{{"match-case"}, {"match-case", "~third-party"}, {"match-case", "~third-party", "domain=example.org"}}
+		for mask := 0; mask < 1<<n; mask++ {
+			var mods []string
+			for i := 0; i < n; i++ {
+				if mask&(1<<i) != 0 {
+					mods = append(mods, c16Mods[i])
+				}
+			}
+			exp := c16Expected(mods)
+			for _, pad := range pads {
+				for _, padFirst := range []bool{true, false} {
+					all := append(append([]string{}, mods...), pad...)
+					if padFirst {
+						all = append(append([]string{}, pad...), mods...)
+					}
+					r, perr := rules.NewNetworkRule(c16RuleText(all), 1)
+					if perr != nil {
+						continue
+					}
+					c.Run.Add("evaluations", 1)
+					if got := rules.NewMatchingResult([]*rules.NetworkRule{r}, nil).GetCosmeticOption(); got != exp {
+						c.Run.Violate(ev.Violation{Pred: "option-equals-all-minus-union", Sig: map[string]any{"mods": mods, "padding": pad, "padding_first": padFirst},
+							What:   fmt.Sprintf("%q (%d options) gives cosmetic option %03b, expected %03b", c16RuleText(all), len(all), got, exp),
+							Replay: map[string]any{"mods": all}})
+					}
+				}
+			}
+		}
 		// a $badfilter exception with a strict subset of another exception's
 		// modifiers is not its twin: the option is the one of the full exception
 		cos := []string{"elemhide", "generichide", "jsinject", "urlblock", "important"}
